@@ -399,6 +399,10 @@ def run(ctx):
                          "combinations and a random literals tuple; plus directed documents; for the correspondence only, also documents with "
                          "processing instructions and default-namespace declarations; non-trivial = distinct (document, flags, literals)")
     docs = [(d, "directed") for d in DIRECTED]
+    # sizes past 256: one element with 300 children, one with 300 attributes; empty attribute values
+    big = "<r n=''>" + "".join("<c i='%d'%s/>" % (i, " e=''" if i % 9 == 0 else "") if i % 3 else "<c> t%d </c>" % i for i in range(300))
+    big += "<many " + " ".join("a%d='%d'" % (i, i) for i in range(300)) + "/></r>"
+    docs.append((big, "directed"))
     names_pool = ["a", "b", "para", "title", "lit"]
     for i in range(n_docs):
         r = ctx.rng.random()
@@ -433,7 +437,7 @@ def run(ctx):
             pw_lx.append("(Some " + X.coq_xel(lx) + ")")
             pmeta.append({"document": doc, "origin": origin})
         for clean, collapse in FLAGS:
-            lits = tuple(ctx.rng.sample(names_pool + ["zz"], ctx.rng.choice([0, 0, 1, 2])))
+            lits = tuple(X.fresh(l) for l in ctx.rng.sample(names_pool + ["zz", ""], ctx.rng.choice([0, 0, 1, 2])))
             ctx.case((doc, clean, collapse, lits))
             # the implementation
             try:
